@@ -1,0 +1,56 @@
+//go:build verif
+
+// Contracts for the command line tool (see /verif/DESIGN.md section 7: C18).
+// Comment-only file, compiled only under the build tag `verif`.
+
+package main
+
+//@ pkg main
+//@ group C18,C06
+//
+// die: diagnostics go to standard error, the process ends with the given status.
+//@ func die
+//@   noreturn
+//@   assert [C18] diagnostics_go_to_standard_error: at Fprintln#1: holds($w, os.Stderr)
+//@   assert [C18] exits_with_the_given_status: at Exit#1: $code == exitcode
+//
+//@ slot parsedArgs.help ()
+//@   modifies nothing
+//
+// main: 2 after a usage error, 0 for help, 1 after any parse / runtime / I/O
+// error, normal return (status 0) only when run succeeded.
+//@ func main
+//@   requires [C18] program_name_present: len(os.Args) >= 1
+//@   assert [C18] usage_error_exits_2: at die#1: $exitcode == 2 && $err != nil
+//@   assert [C18] help_exits_0: at Exit#1: $code == 0
+//@   assert [C18] failure_exits_1: at die#2: $exitcode == 1 && $err != nil
+//@   assert [C18] returns_normally_only_on_success: err == nil
+//
+//@ func open
+//@   ensures result1 == nil ==> result0 != nil
+//
+// parseArgs: see the loop clauses; the cluster expansion rewrites the argument
+// list in place, which is outside what the verifier models precisely.
+//@ func parseArgs
+//@   ensures [C18] help_is_not_an_error: result0.help != nil ==> result1 == nil
+//@   ensures [C18] a_file_is_always_named: result1 == nil && result0.help == nil ==> result0.file != ""
+//@   ensures [C18] dump_target_is_known: result1 == nil && result0.help == nil && result0.bdump ==> result0.bdumpFile != ""
+//@   ensures [C18] load_source_is_unambiguous: result1 == nil && result0.help == nil && result0.bload && result0.bloadFile != "" ==> result0.file == result0.bloadFile
+//@   loop 1 invariant len(args) >= 0 && a.help == nil && (cap(rest) == 0 || (isnew(rest) && arr(rest) != arr(args)))
+//@   loop 2 invariant len(args) >= 1 && a.help == nil && (cap(rest) == 0 || (isnew(rest) && arr(rest) != arr(args))) && len(rest) == prev(len(rest)) && arr(rest) == prev(arr(rest)) && (forall i int :: 0 <= i && i < len(rest) ==> rest[i] == prev(rest[i]))
+//@   loop 2 invariant cap(oneLetterFlags) == 0 || (isnew(oneLetterFlags) && arr(oneLetterFlags) != arr(rest))
+//@   loop 2 invariant (prev(a.disasm) ==> a.disasm) && (prev(a.trace) ==> a.trace) && (prev(a.result) ==> a.result) && (prev(a.stats) ==> a.stats) && (prev(a.bdump) ==> a.bdump) && (prev(a.bload) ==> a.bload)
+//@   loop 1 step [C18] positional_arguments_are_kept: len(rest) >= prev(len(rest)) && (forall i int :: 0 <= i && i < prev(len(rest)) ==> rest[i] == prev(rest[i]))
+//@   loop 1 step [C18] flags_are_only_switched_on: (prev(a.disasm) ==> a.disasm) && (prev(a.trace) ==> a.trace) && (prev(a.result) ==> a.result) && (prev(a.stats) ==> a.stats) && (prev(a.bdump) ==> a.bdump) && (prev(a.bload) ==> a.bload)
+//
+// run: the library does the work; the flags only select what is called.
+//@ func run
+//@   assert [C18] text_input_goes_through_the_file_pipeline: at ParseFile#1: !a.bload
+//@   assert [C18] binary_input_is_loaded: at LoadProg#1: a.bload && $name == a.file
+//@   assert [C18] loaded_file_is_closed_here: at Close#1: a.bload
+//@   assert [C18] dump_file_only_on_request: at Create#1: a.bdump && $name == a.bdumpFile
+//@   assert [C18] dump_precedes_execution_whatever_its_outcome: at Execute#1: a.bdump ==> g.dumps == old(g.dumps) + 1
+//@   assert [C18] executes_the_program_just_obtained: at Execute#1: $prog == prog
+//@   assert [C18] result_printed_only_on_request: at Printf#1: a.result
+//@   ensures [C18] success_means_executed_once: result == nil ==> g.execs == old(g.execs) + 1
+//@   ensures [C18] dump_exactly_when_requested: result == nil ==> g.dumps == old(g.dumps) + (a.bdump ? 1 : 0)
